@@ -293,5 +293,8 @@ func endName(e hx.EndMode) string {
 	if e == hx.EndEOF {
 		return "client-closes"
 	}
+	if e == hx.EndEOFWithData {
+		return "client-closes (end of stream reported together with the last bytes)"
+	}
 	return "client-silent-until-timeout"
 }
